@@ -38,9 +38,16 @@ func (i IntSet) Insert(val int) IntSet {
 	if len(i.data) == 0 {
 		return IntSet{[]int{val}}
 	}
-	i2 := i
-	i2.insertValue(val)
-	return i2
+	index := sort.SearchInts(i.data, val)
+	if index < len(i.data) && i.data[index] == val {
+		return i
+	}
+	// build the result in a fresh slice, the receiver's backing array can be shared
+	data := make([]int, len(i.data)+1)
+	copy(data, i.data[:index])
+	data[index] = val
+	copy(data[index+1:], i.data[index:])
+	return IntSet{data}
 }
 
 func (i *IntSet) insertValue(val int) {
